@@ -1019,6 +1019,11 @@ func genSession(prop string) func(tier string, seed uint64, idx int) interface{}
 			for life := 0; life < rounds; life++ {
 				clean := r.Bool(2, 5)
 				op := Op{K: "connect", CID: fmt.Sprintf("s%d", ci), Clean: clean, KA: 600}
+				if r.Bool(1, 6) {
+					// a will the broker accepts but cannot publish ($-topics are not
+					// published to): the end of the session must not depend on it
+					op.Will = &Will{Topic: "$SYS/will/" + fmt.Sprint(ci), QoS: byte(r.Intn(3)), Size: 8 + r.Intn(20)}
+				}
 				cl.Ops = append(cl.Ops, op, Op{K: "ping"})
 				if clean {
 					mine = nil
@@ -1757,6 +1762,41 @@ func teardownScript(x *g) interface{} {
 		b := Client{}
 		killer := Client{Role: "killer"}
 		prober := Client{Role: "prober"}
+		quietKiller := false
+		if x.force == nil && r.Bool(1, 8) {
+			// self-flood: a subscribes to what it publishes and stops reading, so
+			// its processor parks on its own full outgoing ring and its receiver
+			// on the full incoming ring; behind the flood it has already sent a
+			// DISCONNECT (or a malformed packet) and another ring of bytes; then
+			// it reads again: the processor reaches the DISCONNECT and ends the
+			// connection while the receiver is still parked
+			x.sc.Knobs.CloseServer = false
+			a.Ops = append(a.Ops, mk(0, 600, r.Bool(1, 2), r.Bool(1, 2)), Op{K: "sub", PID: 1, Filters: []string{"self/#"}, QoSs: []byte{byte(r.Intn(2))}}, Op{K: "stall"}, Op{K: "barrier"})
+			a.AckMode = "none"
+			// (about one outgoing ring plus the link is delivered before the
+			// processor parks; the DISCONNECT must still fit into the incoming
+			// ring behind it, the bytes after it must not)
+			a.Ops = append(a.Ops, flood(0, "self/x", 16384+x.sc.Knobs.LinkCap+2000+r.Intn(6000))...)
+			if r.Bool(2, 3) {
+				a.Ops = append(a.Ops, Op{K: "disc", NoWait: true})
+			} else {
+				a.Ops = append(a.Ops, Op{K: "raw", Raw: x.garbage()})
+			}
+			for sent := 0; sent < 16384+8192; sent += 1000 {
+				a.Ops = append(a.Ops, Op{K: "raw", Raw: refmqtt.Encode(&refmqtt.Packet{Type: refmqtt.PUBLISH, Topic: "junk/x", Payload: make([]byte, 990)})})
+			}
+			a.Ops = append(a.Ops, Op{K: "barrier"})
+			b.Ops = append(b.Ops, mk(1, 600, true, false), Op{K: "barrier"}, Op{K: "barrier"}, Op{K: "barrier"})
+			// a's writer blocks inside the junk: the killer lets it read again
+			killer.Ops = append(killer.Ops, Op{K: "barrier"}, Op{K: "barrier"}, Op{K: "resumeother", Target: 0}, Op{K: "barrier"}, Op{K: "barrier"})
+			prober.Ops = append(prober.Ops, Op{K: "connect", CID: "prober", Clean: true, KA: 600}, Op{K: "sub", PID: 1, Filters: []string{"will/#"}, QoSs: []byte{2}})
+			for i := 0; i < 4; i++ {
+				prober.Ops = append(prober.Ops, Op{K: "barrier"})
+			}
+			prober.Ops = append(prober.Ops, Op{K: "ping"})
+			x.sc.Clients = append(x.sc.Clients, a, b, killer, prober)
+			return x.sc
+		}
 		switch cond {
 		case 0:
 			a.Ops = append(a.Ops, mk(0, ka(), r.Bool(1, 2), r.Bool(1, 2)), x.sub(0, 2))
@@ -1788,6 +1828,19 @@ func teardownScript(x *g) interface{} {
 			}
 			b.Ops = append(b.Ops, mk(1, ka(), r.Bool(1, 2), r.Bool(1, 2)), Op{K: "barrier"})
 			b.Ops = append(b.Ops, flood(1, "t/x", total)...)
+			if x.force == nil && r.Bool(1, 4) {
+				// a DISCONNECT queued behind the flood the processor is parked on:
+				// whatever ends the connection later (in half of these scripts
+				// Server.Close), the will stays unpublished; an in-process
+				// subscriber watches the will topics
+				b.Ops = append(b.Ops, Op{K: "disc", NoWait: true})
+				if b.Ops[0].Will == nil {
+					b.Ops[0].Will = &Will{Topic: "will/t1", QoS: byte(r.Intn(3)), Size: 8 + r.Intn(40)}
+				}
+				x.sc.Knobs.CloseServer = r.Bool(1, 2)
+				quietKiller = x.sc.Knobs.CloseServer && r.Bool(2, 3)
+				x.sc.Inproc = append(x.sc.Inproc, InprocOp{K: "sub", CB: 0, Filter: "will/#", QoS: byte(r.Intn(3))})
+			}
 			killer.Ops = append(killer.Ops, Op{K: "barrier"}, Op{K: "barrier"})
 			first, second := 0, 1
 			if x.pick(2) == 1 {
@@ -1824,6 +1877,16 @@ func teardownScript(x *g) interface{} {
 				killer.Ops = append(killer.Ops, cause(second)...)
 			}
 		}
+		if quietKiller {
+			// nothing ends the two connections before Server.Close does
+			var keep []Op
+			for _, op := range killer.Ops {
+				if op.K == "barrier" {
+					keep = append(keep, op)
+				}
+			}
+			killer.Ops = keep
+		}
 		killer.Ops = append(killer.Ops, Op{K: "barrier"}, Op{K: "sleep", D: 100}, Op{K: "barrier"})
 		// prober: after everything, look at what is left of the two identities
 		prober.Ops = append(prober.Ops, Op{K: "connect", CID: "prober", Clean: true, KA: 600}, Op{K: "sub", PID: 1, Filters: []string{"will/#"}, QoSs: []byte{2}})
@@ -1833,6 +1896,11 @@ func teardownScript(x *g) interface{} {
 		x.seq[3]++
 		prober.Ops = append(prober.Ops, Op{K: "pub", Topic: "t/x", QoS: 1, PID: 9, Size: 16, Seq: x.seq[3]}, Op{K: "ping"})
 		x.sc.Clients = append(x.sc.Clients, a, b, killer, prober)
+		if x.force == nil && len(x.sc.Inproc) == 0 && r.Bool(1, 3) {
+			// an in-process subscriber to the wills: it still receives while
+			// Server.Close is tearing the connections down
+			x.sc.Inproc = append(x.sc.Inproc, InprocOp{K: "sub", CB: 0, Filter: "will/#", QoS: byte(r.Intn(3))})
+		}
 		return x.sc
 	}
 }
